@@ -93,6 +93,11 @@ class MultiCrossBlockRepeat(Block):
 
         from sweetpea._internal.constraint import Cross, Consistency, Sustain
         from sweetpea._internal.derivation_processor import DerivationProcessor
+        # Block construction records this block's geometry in its constraints (so that
+        # they keep applying per repetition when the block is later combined). Work on
+        # copies, so that a constraint object that the caller also uses for some other
+        # block is not tied to the geometry of whichever block happened to be built first.
+        constraints = [copy.copy(ct) for ct in constraints]
         self.orig_design = design
         self.orig_crossings = crossings
         self.orig_constraints = constraints
